@@ -344,6 +344,47 @@ def run_reader(case, ctx):
       ctx.violation("reader_outside", "TableReader(%r) = %r outside [%r, %r]" % (q, f(q), xs[0], xs[-1]), what="reader_outside")
       return
   ctx.nontrivial(len(rows) >= 2)
+  if case.get("magnitude") or len(rows) < 2:
+    return
+  # the reader class behind TableReader.datReader with its unit conversions (inputConvert for x, outputConvert for y; powers of
+  # two, so the converted table is exact): it is then the table of the CONVERTED points - tabulated y at every converted x,
+  # between the neighbours in between, 0 outside (seeded change C18r10 searched the unconverted x values)
+  from atsim.potentials._tablereaders import DatReader
+  k_ = len(rows) + len(text)
+  cx, cy = [0.5, 2.0, 0.25, 4.0][k_ % 4], [2.0, -1.0, 0.5][k_ % 3]
+  try:
+    g = DatReader(io.StringIO(text), (lambda x: x * cx) if k_ % 5 else None, (lambda y: y * cy) if k_ % 7 else None)
+  except Exception as e:
+    et, fn = exc_sig(e)
+    ctx.violation("reader_exception", "DatReader with unit conversions failed on a well-formed file: %s %s" % (et, e), what="reader_exception", exc=et, final_newline="conversions")
+    return
+  if not k_ % 5:
+    cx = 1.0
+  if not k_ % 7:
+    cy = 1.0
+  ctx.cls("reader_unit_conversion:x*%s,y*%s" % (cx, cy))
+  conv = [(a * cx, b * cy) for a, b in rows]
+  try:
+    for a, b in conv:
+      ctx.count("reader_converted_points")
+      v = g.getValue(a)
+      if v != b:
+        ctx.violation("reader_data_point", "DatReader(inputConvert x*%s, outputConvert y*%s).getValue(%r) = %r, tabulated (converted) %r" % (cx, cy, a, v, b), what="reader_data_point", last_row="conv", final_newline="conversions")
+        return
+    for (a, b), (c, d) in zip(conv, conv[1:]):
+      q = a + (c - a) * 0.5
+      v = g.getValue(q)
+      ctx.count("reader_converted_points")
+      if not (min(b, d) <= v <= max(b, d)):
+        ctx.violation("reader_interpolation", "DatReader(x*%s, y*%s).getValue(%r) = %r, not between the neighbouring (converted) values %r and %r" % (cx, cy, q, v, b, d), what="reader_interpolation")
+        return
+    for q in (conv[0][0] - span, conv[-1][0] + span):
+      if g.getValue(q) != 0.0:
+        ctx.violation("reader_outside", "DatReader(x*%s, y*%s).getValue(%r) = %r outside the converted range" % (cx, cy, q, g.getValue(q)), what="reader_outside")
+        return
+  except Exception as e:
+    et, fn = exc_sig(e)
+    ctx.violation("reader_exception", "DatReader with unit conversions failed at a query inside or beside its range: %s %s" % (et, e), what="reader_exception", exc=et, final_newline="conversions")
 
 
 def run_reader_nonfinite_x(case, ctx):
